@@ -18,6 +18,8 @@ mod base64_vlq;
 #[path = "/repo/crates/sourcemap-writer/src/source_writer/mapping_writer.rs"]
 #[allow(dead_code)]
 mod mapping_writer;
+#[path = "c06/sites.rs"]
+mod sites;
 
 use nitrogql_ast::base::{HasPos, Pos};
 use nvh::*;
@@ -1331,12 +1333,26 @@ fn boundaries() -> Vec<i64> {
     v
 }
 
+/// the `sites:*` stream; some of the recorded printer call sequences then go through the `ops` stream
+fn run_sites(ctx: &mut Ctx, cases: &[sites::SitesCase], ops_stream_budget: usize) {
+    let mut s = sites::Sites { rep: &mut *ctx.rep, drv: &mut *ctx.drv, for_ops_stream: vec![], ops_stream_budget };
+    for c in cases {
+        s.run(c);
+    }
+    let seqs = std::mem::take(&mut s.for_ops_stream);
+    drop(s);
+    for ops in seqs {
+        ctx.rep.count("ops:recorded-printer-sequence");
+        ctx.ops(&[(ops, true)]);
+    }
+}
+
 fn main() {
     let args = Args::parse();
     quiet_panics();
     let mut rep = Report::new(
         "C06",
-        "vlq: integers (exhaustive/dense in [-2^22,2^22] + isize boundaries); entries: raw MappingWriter entry sequences; ops: random SourceWriter op sequences; e2e: generated projects through the CLI. non-trivial = an op sequence with a named node whose chunk is non-empty and on one line and whose segment pair was located in the decoded real output, an entry sequence with >1 entry, or an emitted .map with a verified named segment (distinct by text)",
+        "vlq: integers (exhaustive/dense in [-2^22,2^22] + isize boundaries); entries: raw MappingWriter entry sequences; ops: random SourceWriter op sequences; e2e: generated projects through the CLI; sites: the printers' calls on the SourceMapWriter trait, recorded on generated schemas/documents. non-trivial = a recorded printer call sequence with a mapped write_for (distinct by its mapped calls), an op sequence with a named node whose chunk is non-empty and on one line and whose segment pair was located in the decoded real output, an entry sequence with >1 entry, or an emitted .map with a verified named segment (distinct by text)",
     );
     let mut drv = Driver::spawn(&args.driver);
     let cli = args.extra.get("cli").cloned().unwrap_or_default();
@@ -1361,6 +1377,7 @@ fn main() {
                 ctx.ops(&[(ops, c["o_domain"].as_bool().unwrap_or(true))]);
             }
             "project" => ctx.project(&project_from_json(c), &cli, &scratch, 0),
+            "sites" => run_sites(&mut ctx, &[sites::SitesCase::from_json(c)], 1),
             k => panic!("unknown replay case kind {k}"),
         }
         rep.write(&args);
@@ -1486,6 +1503,19 @@ fn main() {
     }
     for ch in cases.chunks(4000) {
         ctx.ops(ch);
+    }
+
+    // ---- printer call sites (own PRNG stream: the other streams keep their cases)
+    {
+        let mut srng = Rng::new(args.seed ^ 0x5173_5eed_c06c_a115);
+        let mut cases = sites::corpus();
+        for i in 0..args.budget(60, 1500) {
+            cases.push(sites::generated(&mut srng, i));
+        }
+        if let Some(c) = cases.get(4) {
+            ctx.rep.sample(c.to_json());
+        }
+        run_sites(&mut ctx, &cases, args.budget(6, 40));
     }
 
     // ---- end to end
